@@ -484,5 +484,24 @@ theorem wf_c14nSafe (hm : LeafMono L) {x e : Option Expr} (hx : ∀ a, x = some 
       exact wf_canonicalize hm (hx x0 rfl) he0
 
 end
+
+/-! ### weakening the leaf predicate -/
+
+mutual
+theorem wf_mono {L L' : Option Var → List Var → List Var → Prop} {R : Var → Prop}
+    (hl : ∀ pop c p, L pop c p → L' pop c p) : ∀ (e : Expr), Wf L R e → Wf L' R e
+  | .prob pop c p, h => hl _ _ _ h
+  | .prod fs, h => wfList_mono hl fs h
+  | .sum e r, h => ⟨wf_mono hl e h.1, h.2⟩
+  | .frac n d, h => ⟨wf_mono hl n h.1, wf_mono hl d h.2⟩
+  | .one, _ => trivial
+  | .zero, _ => trivial
+  | .q _ _, _ => trivial
+theorem wfList_mono {L L' : Option Var → List Var → List Var → Prop} {R : Var → Prop}
+    (hl : ∀ pop c p, L pop c p → L' pop c p) : ∀ (es : List Expr), WfList L R es → WfList L' R es
+  | [], _ => trivial
+  | e :: es, h => ⟨wf_mono hl e h.1, wfList_mono hl es h.2⟩
+end
+
 end TrDsl
 end Y0
